@@ -20,6 +20,24 @@ CLAIMED = {
         "DESIGN.md §4 C09"),
 }
 
+CLAIMED["C08"] = (
+    "Coq proof (cache-coherence invariant over histories, table of invalidating primitives regenerated from the "
+    "C++ source) + graph/invalidation correspondence + replica differential against cfg.so",
+    "Theorems history_independent / repeat_stable (coq/Props/C08.v): for every history of API operations and "
+    "queries and every solver memo obeying the memo laws, each query returns what a fresh solver on the current "
+    "graph returns, provided every graph-changing primitive drops the solver - a closed boolean over the "
+    "invalidation table regenerated from typegraph.cc/.h on every run (repo_table_safe, vm_compute). The model's "
+    "graph and invalidation flags are compared with the real cfg.Program on generated histories (snapshots through "
+    "the public API, invalidation observed via the solver-metrics counter) and at every query a replica rebuilt "
+    "from scratch is asked the same question (the property's own oracle, yields the replay). PARTIAL: the memo "
+    "laws are proved for a whole-query cache in front of any solver reading the solver-visible graph; for the real "
+    "sub-state memo (provisional entries on cyclic graphs) they are assumed and exercised by the replica "
+    "differential only.",
+    "Trusted: Coq kernel; regex/brace-matching scan of the C++ source (fail-closed); harness generator, API-op to "
+    "primitive decomposition (validated by snapshot comparison), g++/STL. Not modelled: MAX_VAR_SIZE collapse, "
+    "pointer-hash collisions in the solver's state set.",
+    "DESIGN.md §4 C08")
+
 PENDING_REASON = ("not yet built in this development (design in DESIGN.md §4); no check is registered, so nothing "
                   "is claimed for it")
 
